@@ -33,7 +33,7 @@ def concurrent_case(rng, tier):
         while True:
             E, names, kind = c08.graph_case(rng, tier)
             # settings that default to each other are order dependent even for a single reader (known finding D17)
-            if kind not in ("default-cycle", "random"):
+            if kind not in ("default-cycle", "random", "cycle-resolver"):
                 break
         c = c02.to_case(rng, E, names, {}, tier)
     else:
